@@ -229,14 +229,17 @@ def task(item):
                     except Exception as ex:
                         add('weighted_l2-raised', {'elem': e6, 'residual': res.name, 'order': N, 'exc': repr(ex)})
     # ---- estimate_sobolev (neighbour-symmetry shortcut) == direct per-element sums; estimate_weighted_l2 == per-element
-    for N in (5, 17):
+    natural = list(elems)
+    orders_ = [('natural', natural), ('reversed', natural[::-1]), ('by-slab', sorted(natural, key=lambda e_: (e_.time_interval, e_.space_interval))),
+               ('by-arc', sorted(natural, key=lambda e_: (e_.space_interval, e_.time_interval)))]
+    for N, (oname, elems) in [(N_, o_) for N_ in (5, 17) for o_ in orders_ if N_ == 5 or o_[0] == 'natural']:
         est = ests[N]
         for res in (OS.BYNAME['sin(2*X2)*t'], OS.BYNAME['exp(X1)'], OS.BYNAME['t^2']):
             try:
                 S = est.estimate_sobolev(elems, res.fun, use_mp=False)
                 W = est.estimate_weighted_l2(elems, res.fun, use_mp=False)
             except Exception as ex:
-                add('estimate-raised', {'residual': res.name, 'order': N, 'exc': repr(ex)})
+                add('estimate-raised', {'residual': res.name, 'order': N, 'list_order': oname, 'exc': repr(ex)})
                 continue
             for i, e in enumerate(elems):
                 dt = est.sobolev_time(e, res.fun, nbrs_symmetry=False)[0]
@@ -244,10 +247,11 @@ def task(item):
                 out['n'] += 1
                 sc = max(abs(dt), abs(ds), 1e-300)
                 if abs(S[i, 0] - dt) > 1e-12 * max(abs(dt), 1e-15 * sc) + 1e-16 * sc or abs(S[i, 1] - ds) > 1e-12 * max(abs(ds), 1e-15 * sc) + 1e-16 * sc:
-                    add('symmetry-shortcut', {'elem': leaf6(e), 'residual': res.name, 'order': N, 'shortcut': [float(S[i, 0]), float(S[i, 1])], 'direct': [float(dt), float(ds)]})
+                    add('symmetry-shortcut', {'elem': leaf6(e), 'residual': res.name, 'order': N, 'list_order': oname, 'shortcut': [float(S[i, 0]), float(S[i, 1])], 'direct': [float(dt), float(ds)]})
                 w = est.weighted_l2(e, res.fun)
                 if tuple(W[i]) != tuple(w):
-                    add('estimate_weighted_l2-differs', {'elem': leaf6(e), 'residual': res.name, 'order': N})
+                    add('estimate_weighted_l2-differs', {'elem': leaf6(e), 'residual': res.name, 'order': N, 'list_order': oname})
+    elems = natural
     return out
 
 
